@@ -727,9 +727,9 @@ fn explore_crashes(rng: &mut Rng, out: &mut Out, rec: &Arc<Recorder>, w: &Worklo
             // recovery's own device trace must follow the journal discipline too, starting from the
             // journal the crash image holds
             if lean_lines && r.is_ok() && img.len() >= 7 * BS {
-                if let Ok((_, _, extents)) = feoxdb::verif::pure::journal_decode(&img[BS..7 * BS], w.blocks) {
+                if let Ok((_, slot, extents)) = feoxdb::verif::pure::journal_decode(&img[BS..7 * BS], w.blocks) {
                     out.count("txn recovery trace");
-                    emit_txn_lines(out, &rtrace, w.blocks, Some(&extents));
+                    emit_txn_lines(out, &rtrace, w.blocks, Some((&extents, slot)));
                 }
             }
             match &r {
@@ -819,11 +819,11 @@ fn explore_crashes(rng: &mut Rng, out: &mut Out, rec: &Arc<Recorder>, w: &Worklo
 /// the device trace as `txn` lines for the journal-discipline acceptor `Feox.Proto.Txn.step?`:
 /// journal slot writes (decoded: active with runs, or clear), data-area writes with their block
 /// range, metadata writes, fsyncs.  `resume`: the runs of the journal the file held at open.
-fn emit_txn_lines(out: &mut Out, trace: &[Ev], blocks: u64, resume: Option<&[(u64, usize)]>) {
+fn emit_txn_lines(out: &mut Out, trace: &[Ev], blocks: u64, resume: Option<(&[(u64, usize)], usize)>) {
     let show = |es: &[(u64, usize)]| if es.is_empty() { "-".to_string() } else { es.iter().map(|e| format!("{}:{}", e.0, e.0 + e.1 as u64)).collect::<Vec<_>>().join(",") };
     match resume {
         None => out.emit("txn new".into(), "ok".into()),
-        Some(es) => out.emit(format!("txn resume {}", show(es)), "ok".into()),
+        Some((es, slot)) => out.emit(format!("txn resume {} {}", show(es), slot), "ok".into()),
     }
     for e in trace {
         match e {
@@ -835,7 +835,8 @@ fn emit_txn_lines(out: &mut Out, trace: &[Ev], blocks: u64, resume: Option<&[(u6
                     let l = data.len().min(area.len() - off);
                     area[off..off + l].copy_from_slice(&data[..l]);
                     match feoxdb::verif::pure::journal_decode(&area, blocks) {
-                        Ok((_, _, extents)) => { out.count(if extents.is_empty() { "txn journal clear" } else { "txn journal active" }); out.emit(format!("txn j {}", show(&extents)), "ok".into()); }
+                        // (the slot the record went to: 3 blocks per slot from block 1 on)
+                        Ok((_, _, extents)) => { out.count(if extents.is_empty() { "txn journal clear" } else { "txn journal active" }); out.emit(format!("txn j {} {}", show(&extents), (*sector - 1) / 3), "ok".into()); }
                         Err(_) => out.emit("txn j ?".into(), "ok".into()),
                     }
                 } else if *sector >= 16 {
